@@ -54,6 +54,8 @@ type vfs struct {
 	gateCk     atomic.Bool   // the next Save of the checkpoints file parks inside the commit until gateRel is closed
 	gateArr    chan struct{}
 	gateRel    chan struct{}
+	failRead   atomic.Int64  // k+1: the k-th ReadAt (from 0) that this view does on *.wal files returns an error that is not end-of-file; 0 = off
+	walReads   atomic.Int64  // ReadAt calls on *.wal files so far
 	failWrite  atomic.Int64  // k+1: the k-th Write (from 0) on the next *.wal file that is written returns an error; 0 = off
 	fired      chan struct{} // receives one token when an armed fault has been delivered
 }
@@ -77,6 +79,7 @@ func (v *vfs) disarm() {
 	v.failSave.Store("")
 	v.failDelete.Store(false)
 	v.failWrite.Store(0)
+	v.failRead.Store(0)
 	for {
 		select {
 		case <-v.fired:
@@ -169,6 +172,13 @@ func (f *vfile) Save() error {
 }
 
 func (f *vfile) ReadAt(p []byte, off int64) (int, error) {
+	if !f.v.dead.Load() && kindOf(f.File.URI()) == "wal" {
+		k := f.v.walReads.Add(1) - 1
+		if f.v.failRead.CompareAndSwap(k+1, 0) {
+			f.v.fired <- struct{}{}
+			return 0, errInjected
+		}
+	}
 	n, err := f.File.ReadAt(p, off)
 	if err != nil && errors.Is(err, storage.ErrNotFound) && f.v.dead.Load() {
 		return f.v.grave.Open(uriPath(f.File.URI())).ReadAt(p, off)
